@@ -457,3 +457,81 @@ func init() {
 			}
 		}})
 }
+
+func init() {
+	register(&Rule{ID: "ERR", Min: 1, Text: "no dropped error in the sync pipeline and the document model: in the anchored packages every call whose callee is a module function (or a Database/Locker interface method) with an error result has that result read — compared, returned, wrapped or passed on; an error that is assigned to `_` or left unread means a failed storage call, decode or state check is treated as success. The sites that drop an error on the pinned tree are listed by callee with the reason",
+		Run: func(x *Ctx) {
+			pkgs := []string{docPkg, changePkg, crdtPkg, opsPkg, "pkg/document/json", "pkg/document/presence", "pkg/document/yson", convPkg,
+				"server/packs", dbPkg, memPkg, "server/clients", "server/documents", "server/revisions", "server/rpc", "server/rpc/interceptors", "server/rpc/auth", "server/authz", "server/projects", psPkg}
+			// deliberate drops on the pinned tree (callee name → reason)
+			allowed := map[string]string{
+				"pkg/document/crdt.NewArray -> InsertAfter":        "inserting after the last position of a list built in the same loop: the anchor always exists",
+				"pkg/document/crdt.NewRGATreeList -> NewPrimitive": "the dummy head's value is the constant 0, which NewPrimitive always accepts",
+			}
+			n, dropped := 0, map[string][]string{}
+			for _, fn := range x.P.FuncsIn(pkgs...) {
+				if o := fn.Origin(); o != nil && o != fn {
+					continue
+				}
+				for _, c := range prog.CallsIn(fn) {
+					call, ok := c.(*ssa.Call)
+					if !ok {
+						continue
+					}
+					var sig *types.Signature
+					name := ""
+					inModule := false
+					if call.Call.IsInvoke() {
+						sig = call.Call.Method.Type().(*types.Signature)
+						name = call.Call.Method.Name()
+						inModule = call.Call.Method.Pkg() != nil && strings.HasPrefix(call.Call.Method.Pkg().Path(), prog.Mod)
+					} else if o := prog.CallObj(call); o != nil {
+						sig = o.Type().(*types.Signature)
+						name = o.Name()
+						inModule = o.Pkg() != nil && strings.HasPrefix(o.Pkg().Path(), prog.Mod)
+					}
+					if sig == nil || !inModule || sig.Results().Len() == 0 || !isErrorType(sig.Results().At(sig.Results().Len()-1).Type()) {
+						continue
+					}
+					n++
+					read := false
+					if sig.Results().Len() == 1 {
+						for _, r := range *call.Referrers() {
+							if _, dbg := r.(*ssa.DebugRef); !dbg {
+								read = true
+							}
+						}
+					} else {
+						for _, r := range *call.Referrers() {
+							ex, ok := r.(*ssa.Extract)
+							if !ok || ex.Index != sig.Results().Len()-1 {
+								continue
+							}
+							for _, rr := range *ex.Referrers() {
+								if _, dbg := rr.(*ssa.DebugRef); !dbg {
+									read = true
+								}
+							}
+						}
+					}
+					if read {
+						continue
+					}
+					key := prog.FnName(fn) + " -> " + name
+					dropped[key] = append(dropped[key], x.pos(call))
+				}
+			}
+			x.C.Count("calls returning an error in the anchored packages", n)
+			for key, at := range dropped {
+				callee := key[strings.LastIndex(key, " -> ")+4:]
+				if why, ok := allowed[key]; ok {
+					x.C.Add(obTrivial(x.id(), "dropped "+key, at[0], "deliberate: "+why))
+					continue
+				}
+				x.fail("dropped "+key, at[0], "the error result of "+callee+" is not read: a failure is treated as success")
+			}
+			if len(dropped) == 0 {
+				x.hold("all error results read", "", fmt.Sprintf("%d calls", n))
+			}
+		}})
+}
